@@ -45,6 +45,9 @@ META = {
                     'no recursive classes; field names pairwise distinct (wf_cls); unique class names'],
 }
 
+# --- lead: algorithm-level source tie mentioned in the technique (kept separate so the builder's text stays intact)
+META['technique'] = META['technique'] + ' + translation of the comprehensions of errors.MissingFields.__init__ and v1 check_and_raise_missing_fields from the current source text into Gallina, proved equal to the hand-written model on every run (tie T for algorithms)'
+
 RESERVED = {'o', 'cls', 'field', 'fields', 'i', 'e', 'v1', 'tp', 'result', 'config', 'hooks', 'exclude', 'self', 'k', 'v'}
 LETTERS = 'abcdefghjmnpqrstuwxyz'
 
